@@ -37,6 +37,16 @@ DETECT = {
     "C16_m4": ("C16", "bcast_calm", "second round; scenarios without a subscriber that keeps up, calm phase after everybody lagged"),
     "C17_m3": ("C17", "rw_local", "second round; caught as built"),
     "C17_m4": ("C17", "rw_cut_commit", "second round; connection cut by the remote writer right after a confirmed commit"),
+    "C01_m3": ("C01", "data_cancel", "third round; caught as built"), "C01_m4": ("C01", "data_cancel", "third round; caught as built"),
+    "C03_m3": ("C03", "data_empty", "third round; many zero-length messages through a small window"),
+    "C03_m4": ("C03", "wake", "third round; a send waiting for credit is abandoned, another waits, a single credit return arrives"),
+    "C04_m3": ("C04", "typed_base", "third round; caught as built"), "C04_m4": ("C04", "typed_base", "third round; caught as built"),
+    "C11_m3": ("C11", "life_data", "third round; caught as built (reverse of the else-branch of fix a0a494e)"),
+    "C11_m4": ("C11", "close_retry", "third round; first close() abandoned under back-pressure, rule: a completed close() must have put a ReceiveClose on the wire"),
+    "C12_m3": ("C12", "rtc_local / rtc_remote", "third round; trait method with a default body that the target overrides"),
+    "C12_m4": ("C12", "rtc_cut", "third round; caught as built"),
+    "C13_m3": ("C13", "robs_paths", "third round; caught as built"),
+    "C13_m4": ("C13", "robs_tight", "third round; mirror size limit equal to the largest size the collection reaches (from RobsGen)"),
     "F16_prefix": ("C09", "C09 stream_frames; C05 wiring", "reverse of fix e06cc2e"),
     "X08_framecap": ("C08", "stream_hostile", "own mutant: receive-side frame length cap of Connect::io removed"),
     "F1_prefix": ("C01", "C01 data legs; C04 typed_base", "reverse of fix a8ebdc3"), "F2_prefix": ("C03", "C03", "reverse of fix 4668553"),
